@@ -104,7 +104,8 @@ UnitWalk(M, i, u, bin, at) ==
                  veof == IF ~IsEofPkt(RExpand(RTake(M[i + n + 1].p, 16))) THEN {V("C03", at, "EOF after definitions missing")} ELSE {}
                  vrows == UNION {LET want == IF bin THEN BinRowEnc(u.rows[r]) ELSE TextRowEnc(u.rows[r], 1) IN
                                  IF M[i + n + 1 + r].p # want
-                                 THEN {V("C04", at, "reassembled row differs from the cells the shim wrote (row length " \o ToString(RLen(want)) \o ")")}
+                                 THEN {V("C04", at, "reassembled row differs from the cells the shim wrote (row length " \o ToString(RLen(want)) \o ")"),
+                                       V(IF bin THEN "C07" ELSE "C06", at, "a large value did not arrive unchanged (row length " \o ToString(RLen(want)) \o ")")}
                                  ELSE {} : r \in 1..nr}
                  t == RExpand(RTake(M[last].p, SMALL))
                  vterm == IF u.term = "eof" THEN (IF ~IsEofPkt(t) THEN {V("C03", at, "resultset terminator is not EOF")} ELSE {})
@@ -119,7 +120,9 @@ UnitsWalk(M, i, units, k, bin, at, acc) ==
 \* sequence ids of messages M[a..b-1] continue req
 SeqWalk(M, a, b, req, at) ==
   LET bad == {j \in a..(b - 1) : j <= Len(M) /\ (M[j].seq0 # (IF j = a THEN (req + 1) % 256 ELSE (M[j - 1].seqN + 1) % 256) \/ ~M[j].consec)} IN
-  IF bad = {} THEN {} ELSE {V("C05", at, "response packet sequence ids do not continue the request's (multi-packet)")}
+  (IF bad = {} THEN {} ELSE {V("C05", at, "response packet sequence ids do not continue the request's (multi-packet)")})
+  \cup (IF \E j \in a..(b - 1) : j <= Len(M) /\ ~M[j].consec
+        THEN {V("C04", at, "the fragments of one logical message do not carry consecutive sequence ids: a client cannot reassemble it")} ELSE {})
 
 RECURSIVE Walk(_, _, _, _, _, _)
 \* ci: command index, mi: message index, cbi: index into the callback log
@@ -134,7 +137,8 @@ Walk(mm, M, ci, mi, cbi, acc) ==
            \cup (IF mi > Len(M) \/ ~DecOk(RExpand(RTake(M[mi].p, SMALL))).ok THEN {V("C03", l, "ping not answered with OK")} ELSE {}))
     ELSE IF f \in {24, 25} THEN Walk(mm, M, ci + 1, mi, IF f = 25 THEN cbi + 1 ELSE cbi, acc)
     ELSE IF f = 1 THEN [mi |-> mi, viol |-> acc]
-    ELSE IF cbi > Len(mm.cbs) THEN [mi |-> mi, viol |-> acc \cup {V("C02", l, "command without its callback"), V("C01", l, "a command never reached the shim")}]
+    ELSE IF cbi > Len(mm.cbs) THEN [mi |-> mi, viol |-> acc \cup {V("C02", l, "command without its callback"), V("C01", l, "a command never reached the shim"),
+                                                                       V("C12", l, "a command that had arrived was never served")}]
     ELSE LET cb == mm.cbs[cbi] IN
       IF f = 22 THEN \* prepare: decode the (small) reply to find its extent
         LET small == [j \in 1..(Len(M) - mi + 1) |-> Flat([M[mi + j - 1] EXCEPT !.p = RTake(@, SMALL)])]
